@@ -18,6 +18,13 @@ def get_transform(name):
     if name.startswith("twice:"):
         t = get_transform(name[len("twice:"):])
         return lambda s: t(t(s))
+    if name.startswith("rule+imports:"):
+        # a rule may introduce a name (collections.defaultdict, functools.reduce ...) whose import the pipeline
+        # adds afterwards: the isolated rule is composed with the pipeline's own import completion
+        t = get_transform("rule:" + name[len("rule+imports:"):])
+        from pyrefact import fixes
+
+        return lambda s: fixes.add_missing_imports(t(s))
     if name.startswith("rule:"):
         modname, fn = name[len("rule:"):].rsplit(".", 1)
         mod = importlib.import_module("pyrefact." + modname)
@@ -167,6 +174,6 @@ def tv_replay(case):
     r = symtv.replay_pair(sk.text, T, case["model"])
     if r["reproduced"]:
         s2 = r["status"][1]
-        failure = "trace" if s2 == "ok" else "raises:%s" % s2.split(":", 1)[-1]
+        failure = "trace" if s2 == "ok" else ("timeout" if s2 == "timeout" else "raises:%s" % s2.split(":", 1)[-1])
         r["key"] = "%s|%s" % (case["oid"], failure)
     return r
